@@ -82,6 +82,15 @@ int32_t matrixSslValidatePeerCerts(ssl_t *ssl,
     psCheckSetPathLenFailure(ssl, ssl->sec.cert);
     rc = psCheckValidationResult(ssl,
             ssl->sec.cert);
+    if (rc == PS_SUCCESS &&
+            (ssl->keys == NULL || ssl->keys->CAcerts == NULL))
+    {
+        /* A consistent chain, but no trust anchor of ours has validated it:
+           same rule as parseCertificate applies for TLS 1.2 and below. */
+        psTraceInfo("WARNING: Valid self-signed cert or cert chain but no local authentication\n");
+        ssl->err = SSL_ALERT_UNKNOWN_CA;
+        rc = MATRIXSSL_ERROR;
+    }
     if (rc < 0)
     {
         if (ssl->sec.validateCert == NULL)
